@@ -317,7 +317,8 @@ func c12EncoderFacts(sp *Pkg) []Fact {
 	md, _ := sp.Func("", "internalMarshal")
 	if md == nil || md.Body == nil {
 		return []Fact{unknownFact("encodeWalkStateless", "Bool", "false", whereW, "func internalMarshal not found"),
-			unknownFact("typeKeysByExactType", "Bool", "false", whereK, "func internalMarshal not found")}
+			unknownFact("typeKeysByExactType", "Bool", "false", whereK, "func internalMarshal not found"),
+			unknownFact("structEncoderOwnFieldsOnly", "Bool", "false", "serialization.go internalMarshal", "func internalMarshal not found")}
 	}
 	params := 0
 	for _, f := range md.Type.Params.List {
@@ -359,7 +360,99 @@ func c12EncoderFacts(sp *Pkg) []Fact {
 	return []Fact{
 		boolFact("encodeWalkStateless", params == 1 && rec >= 3 && badRec == 0 && identity == 0, whereW),
 		boolFact("typeKeysByExactType", lookups >= 6 && badLookups == 0, whereK),
+		c12StructOwnFields(md),
 	}
+}
+
+// c12StructOwnFields: the struct case of internalMarshal writes one entry per OWN field of the
+// struct, under the field's own name, and nothing else — an embedded struct is one field (named
+// after its type) holding a struct value; its fields are not promoted into the outer table
+// (the model's `encFields` walks the declared field list of the struct itself; theorem
+// struct_table_has_own_field_names_only).  Syntactically: the `case reflect.Struct:` clause of
+// the `switch rt.Kind()` contains exactly one `for` statement, whose condition is
+// `i < rt.NumField()`; every store into ret.MapValues in the clause is inside that loop, at its
+// nesting depth 1 or 2 (the `if field.PkgPath == ""` block), keyed by `field.Name` (or a variable
+// assigned from it) with the value obtained from `internalMarshal(rv.Field(i)…)`; the clause
+// calls no function other than internalMarshal, make, fmt.Errorf and methods of rt / rv / field
+// / v (so no helper that could walk into an embedded struct), and never reads `.Anonymous`.
+func c12StructOwnFields(md *ast.FuncDecl) Fact {
+	const where = "serialization.go internalMarshal, case reflect.Struct: one loop over rt.NumField(), ret.MapValues[field.Name] = internalMarshal(rv.Field(i)) per exported own field, no helper call, no .Anonymous"
+	var clause *ast.CaseClause
+	ast.Inspect(md.Body, func(x ast.Node) bool {
+		sw, ok := x.(*ast.SwitchStmt)
+		if !ok || sw.Tag == nil || exprString(sw.Tag) != "rt.Kind()" {
+			return true
+		}
+		for _, c := range sw.Body.List {
+			cc := c.(*ast.CaseClause)
+			for _, e := range cc.List {
+				if exprString(e) == "reflect.Struct" && clause == nil {
+					clause = cc
+				}
+			}
+		}
+		return true
+	})
+	if clause == nil {
+		return unknownFact("structEncoderOwnFieldsOnly", "Bool", "false", where, "case reflect.Struct of switch rt.Kind() not found")
+	}
+	loops, goodLoop, stores, goodStores, badCalls, anonymous := 0, 0, 0, 0, 0, 0
+	keyVars := map[string]bool{}
+	for _, st := range clause.Body {
+		ast.Inspect(st, func(x ast.Node) bool {
+			switch n := x.(type) {
+			case *ast.ForStmt:
+				loops++
+				if n.Cond != nil && exprString(n.Cond) == "i<rt.NumField()" {
+					goodLoop++
+					ast.Inspect(n.Body, func(y ast.Node) bool {
+						as, ok := y.(*ast.AssignStmt)
+						if !ok || len(as.Lhs) != 1 || len(as.Rhs) != 1 {
+							return true
+						}
+						if exprString(as.Rhs[0]) == "field.Name" {
+							keyVars[exprString(as.Lhs[0])] = true
+						}
+						if ix, ok := as.Lhs[0].(*ast.IndexExpr); ok && exprString(ix.X) == "ret.MapValues" {
+							k := exprString(ix.Index)
+							if k == "field.Name" || keyVars[k] {
+								goodStores++
+							}
+						}
+						return true
+					})
+				}
+			case *ast.RangeStmt:
+				loops++
+			case *ast.AssignStmt:
+				for _, l := range n.Lhs {
+					if ix, ok := l.(*ast.IndexExpr); ok && exprString(ix.X) == "ret.MapValues" {
+						stores++
+					}
+				}
+			case *ast.SelectorExpr:
+				if n.Sel.Name == "Anonymous" || n.Sel.Name == "VisibleFields" {
+					anonymous++
+				}
+			case *ast.CallExpr:
+				switch f := n.Fun.(type) {
+				case *ast.Ident:
+					if f.Name != "internalMarshal" && f.Name != "make" {
+						badCalls++
+					}
+				case *ast.SelectorExpr:
+					recv := exprString(f.X)
+					if !(recv == "rt" || recv == "rv" || recv == "field" || recv == "v" || (recv == "fmt" && f.Sel.Name == "Errorf")) {
+						badCalls++
+					}
+				default:
+					badCalls++
+				}
+			}
+			return true
+		})
+	}
+	return boolFact("structEncoderOwnFieldsOnly", loops == 1 && goodLoop == 1 && stores == 1 && goodStores == 1 && badCalls == 0 && anonymous == 0, where)
 }
 
 // c12MapKeyFresh: in the map branch of internalUnmarshal every entry is decoded into a key of
